@@ -57,7 +57,7 @@ def gen_lines(rnd, tier):
             kwd = "-" if not kwonly else "".join(rnd.choice("01") for _ in range(kwonly))
             first += 7
             L.append("fn %d %d %d %d %d %d %s %d %s %d %s" % (posonly, pos, va, kwonly, kw, nloc, kind, ndef, kwd, first, ",".join(vals)))
-    for _ in range(150 if tier == "quick" else 8000):
+    for _ in range(1500 if tier == "quick" else 8000):
         posonly, pos, va, kwonly, kw, nloc = rnd.randint(0, 3), rnd.randint(0, 4), rnd.randint(0, 1), rnd.randint(0, 2), rnd.randint(0, 1), rnd.choice((0, 0, 2))
         kind = rnd.choice("FMI")
         total = posonly + pos + (1 if kind == "M" else 0)
